@@ -73,8 +73,8 @@ def classify(d, case):
     if read == "SuffrageProofByBlockHeight":
         h = int(arg)
         oldest = tf - 1          # height of the oldest temp
-        if ntemps > 0 and h < oldest - 1 and got != "-" and got != "-9.-9":
-            return "ProofByBlockHeight(h<oldest-temp-1)"
+        if ntemps > 0 and h < oldest - 1 and got not in ("-", "-9.-9") and int(got.split(".")[0]) > h:
+            return "ProofByBlockHeight(h<oldest-temp-1)"     # the proof of a block above the one asked for
         return "ProofByBlockHeight(%s)" % ("not-found" if got == "-" else "wrong-proof" if want != "-" else "found-beyond")
     if base in ("State",):
         if got == "-":
@@ -190,7 +190,7 @@ def run(ctx):
     ctx.extra["model_only_counterexamples"] = moc
 
     # 3. random behaviours of a larger instance, every read after every step
-    num, depth = (150, 30) if quick else (1500, 50)
+    num, depth = (100, 30) if quick else (1000, 50)
     _, behs = ctx.tlc_simulate("Database", "Database_sim.cfg", num=num, depth=2 * depth)   # action + ReadAll
     phase("tlc_simulate")
     cases = [steps_to_case(i, b, permcache=(0, 2, 4096)[i % 3], writecache=(0, 1, 64)[(i // 3) % 3])
